@@ -3,7 +3,7 @@
 # checks against it with --root, print the non-zero ones.  Nothing is written to /repo or to evidence/.
 one() {
   d=$1
-  tag=$(basename $(dirname $d))_$(basename $d .diff)
+  tag=$(echo $d | sed "s#/patch.diff##; s#.diff##" | awk -F/ "{print \$(NF-1)\"_\"\$NF}")
   w=/dev/shm/ben_$tag
   rm -rf $w; mkdir -p $w
   git -C /repo archive HEAD | tar -x -C $w
